@@ -674,7 +674,20 @@ func ruleEnv(c *Ctx) {
 				c.R.Hold("R-ORDER/O5", p.Pos(ctors[0].Ast), f.Name, "environment complete before the runner is created", fmt.Sprintf("no cmd.Env append is reachable from any of the %d runner construction sites", len(ctors)), true)
 			}
 		}
-		if envSpliceNode == nil {
+		direct := len(entries) > 0
+		for _, en := range entries {
+			if en.viaEnv {
+				direct = false
+			}
+		}
+		if envSpliceNode == nil && direct {
+			// no intermediate slice: every control variable is appended to
+			// cmd.Env itself (presence and guards of each are decided above)
+			if !bad {
+				c.R.Hold("R-ORDER/O5", p.Pos(hostNode.Ast), f.Name, "host environment before control variables", "no append of a control variable can be followed by the host-environment append", true)
+			}
+			c.R.Hold("R-TABLE/env", p.Pos(f.Node()), f.Name, "control variables reach cmd.Env", fmt.Sprintf("no intermediate slice: all %d control variables are appended to cmd.Env directly", len(entries)), true)
+		} else if envSpliceNode == nil {
 			c.R.Violate("R-TABLE/env", p.Pos(f.Node()), f.Name, "control variables reach cmd.Env", "the control-variable slice is never appended to cmd.Env", nil)
 		} else if !bad {
 			c.R.Hold("R-ORDER/O5", p.Pos(hostNode.Ast), f.Name, "host environment before control variables", "no append of a control variable can be followed by the host-environment append", true)
@@ -804,6 +817,92 @@ func (p *Prog) hostEnvNeutralises(f *Func, hostExpr ast.Expr, k string, entries 
 	return false, ""
 }
 
+// keysOnlySorted: the local slice mid receives the key of every iteration of a
+// range over the map field, and is otherwise only created empty, measured,
+// ranged over and handed to sort functions.
+func (p *Prog) keysOnlySorted(f *Func, mid *types.Var, mapF *types.Var) bool {
+	info := f.Pkg.TypesInfo
+	filled, good := false, true
+	isMid := func(e ast.Expr) bool { return identObj(info, ast.Unparen(e)) == mid }
+	ast.Inspect(f.Body, func(x ast.Node) bool {
+		switch s := x.(type) {
+		case *ast.RangeStmt:
+			if SelField(info, s.X) == mapF && s.Key != nil {
+				key := identObj(info, s.Key)
+				for _, st := range s.Body.List {
+					if as, ok := st.(*ast.AssignStmt); ok && len(as.Lhs) == 1 && len(as.Rhs) == 1 && isMid(as.Lhs[0]) {
+						if call, ok := as.Rhs[0].(*ast.CallExpr); ok && p.CalleeName(f, call) == "builtin.append" && len(call.Args) == 2 && isMid(call.Args[0]) && identObj(info, call.Args[1]) == key {
+							filled = true
+						}
+					}
+				}
+			}
+		case *ast.AssignStmt:
+			for i, l := range s.Lhs {
+				if ix, ok := ast.Unparen(l).(*ast.IndexExpr); ok && isMid(ix.X) {
+					good = false
+				}
+				if !isMid(l) || i >= len(s.Rhs) {
+					continue
+				}
+				call, ok := ast.Unparen(s.Rhs[i]).(*ast.CallExpr)
+				if !ok {
+					good = false
+					continue
+				}
+				switch p.CalleeName(f, call) {
+				case "builtin.make":
+					if len(call.Args) >= 2 {
+						if n, isC := constInt(info, call.Args[1]); !isC || n != 0 {
+							good = false
+						}
+					}
+				case "builtin.append":
+					if par, ok := p.Parent(s).(*ast.BlockStmt); !ok || !isRangeOver(info, p.Parent(par), mapF) {
+						good = false
+					}
+				default:
+					good = false
+				}
+			}
+		case *ast.CallExpr:
+			nm := p.CalleeName(f, s)
+			for _, a := range s.Args {
+				if !isMid(a) {
+					continue
+				}
+				switch {
+				case nm == "builtin.len", nm == "builtin.cap", nm == "builtin.append", nm == "builtin.make":
+				case strings.HasPrefix(nm, "sort."), nm == "slices.Sort", nm == "slices.SortFunc", nm == "slices.Reverse":
+				default:
+					if tv, ok := info.Types[s.Fun]; ok && tv.IsType() {
+						// a conversion such as sort.IntSlice(mid)
+						if par, ok := p.Parent(s).(*ast.CallExpr); ok && strings.HasPrefix(p.CalleeName(f, par), "sort.") {
+							continue
+						}
+					}
+					good = false
+				}
+			}
+		case *ast.UnaryExpr:
+			if s.Op == token.AND && isMid(s.X) {
+				good = false
+			}
+		case *ast.SliceExpr:
+			if isMid(s.X) {
+				good = false
+			}
+		}
+		return true
+	})
+	return filled && good
+}
+
+func isRangeOver(info *types.Info, n ast.Node, mapF *types.Var) bool {
+	rs, ok := n.(*ast.RangeStmt)
+	return ok && SelField(info, rs.X) == mapF
+}
+
 func (p *Prog) envVersions(c *Ctx, f *Func) {
 	p.legacyFoldBeforeOffer(c, f)
 	info := f.Pkg.TypesInfo
@@ -871,6 +970,39 @@ func (p *Prog) envVersions(c *Ctx, f *Func) {
 		})
 		return true
 	})
+	if !built && joined != nil {
+		// through a sorted list of the keys: mid = keys of the map (appended in
+		// a range over it), only sorted in between, and the joined list holds
+		// Itoa of every element of mid
+		ast.Inspect(f.Body, func(x ast.Node) bool {
+			rs, ok := x.(*ast.RangeStmt)
+			if !ok || rs.Value == nil {
+				return true
+			}
+			mid, isV := identObj(info, ast.Unparen(rs.X)).(*types.Var)
+			if !isV || mid.IsField() {
+				return true
+			}
+			val := identObj(info, rs.Value)
+			fills := false
+			ast.Inspect(rs.Body, func(y ast.Node) bool {
+				as, ok := y.(*ast.AssignStmt)
+				if !ok || len(as.Lhs) != 1 || len(as.Rhs) != 1 || identObj(info, as.Lhs[0]) != joined {
+					return true
+				}
+				if call, ok := as.Rhs[0].(*ast.CallExpr); ok && p.CalleeName(f, call) == "builtin.append" && len(call.Args) == 2 && identObj(info, call.Args[0]) == joined {
+					if conv, ok := call.Args[1].(*ast.CallExpr); ok && p.CalleeName(f, conv) == "strconv.Itoa" && len(conv.Args) == 1 && identObj(info, conv.Args[0]) == val {
+						fills = true
+					}
+				}
+				return true
+			})
+			if fills && p.keysOnlySorted(f, mid, vpF) {
+				built = true
+			}
+			return true
+		})
+	}
 	if joined != nil && sepOK && built {
 		c.R.Hold("R-TABLE/env", p.Pos(f.Node()), f.Name, "offered versions", "PLUGIN_PROTOCOL_VERSIONS = Join(Itoa(k) for k in range ClientConfig.VersionedPlugins, \",\")", true)
 	} else {
